@@ -64,7 +64,11 @@ fn carrier(kind: &str) -> Inst {
 }
 
 fn parse_one(words: &[u32]) -> Result<Vec<dr::Instruction>, String> {
-    let mut bin = model::header(0x0001_0600, 0, 100);
+    parse_one_v(words, 0x0001_0600)
+}
+
+fn parse_one_v(words: &[u32], version: u32) -> Result<Vec<dr::Instruction>, String> {
+    let mut bin = model::header(version, 0, 100);
     bin.extend_from_slice(words);
     let bytes = model::words_to_bytes(&bin);
     match guarded(|| parse_collect(&bytes)) {
@@ -223,15 +227,19 @@ pub fn run(tier: Tier) -> Run {
                     let args = if is_mask { crate::universe::mask_with_params(k, n, 500) } else { crate::universe::enum_with_params(k, n, 500) };
                     let inst = crate::universe::with_operand(gi, *pos, args);
                     let words = enc(&inst);
-                    match parse_one(&words) {
-                        Ok(insts) if insts.len() == 1 && model::from_dr(&insts[0]) == inst => {}
-                        got => {
-                            if out.len() < 3 {
-                                out.push(viol(
-                                    format!("C17:{}::{:#x}:parser:in-{}", k, n, gi.name),
-                                    format!("parser fed {} (value {:#x} of {} hosted by Op{}) gave {:?}", inst.short(), n, k, gi.name, got.map(|v| v.iter().map(|i| format!("{:?}", i.operands)).collect::<Vec<_>>())),
-                                    json!({"kind": "c17-host", "operand_kind": k, "value": n, "host": gi.name}),
-                                ));
+                    // under every header version 1.0 .. 1.6 (and 0.0 / 2.0): which operands follow a value is the
+                    // grammar's business, not the header's
+                    for version in [0x0001_0600u32, 0x0001_0000, 0x0001_0100, 0x0001_0200, 0x0001_0300, 0x0001_0400, 0x0001_0500, 0, 0x0002_0000] {
+                        match parse_one_v(&words, version) {
+                            Ok(insts) if insts.len() == 1 && model::from_dr(&insts[0]) == inst => {}
+                            got => {
+                                if out.len() < 3 {
+                                    out.push(viol(
+                                        format!("C17:{}::{:#x}:parser:in-{}", k, n, gi.name),
+                                        format!("parser fed {} (value {:#x} of {} hosted by Op{}, header version {:#x}) gave {:?}", inst.short(), n, k, gi.name, version, got.map(|v| v.iter().map(|i| format!("{:?}", i.operands)).collect::<Vec<_>>())),
+                                        json!({"kind": "c17-host", "operand_kind": k, "value": n, "host": gi.name, "version": version}),
+                                    ));
+                                }
                             }
                         }
                     }
@@ -478,6 +486,12 @@ pub fn run(tier: Tier) -> Run {
         layer = next;
     }
     strs.extend(["abcd".to_string(), "é€😀".to_string(), "x".repeat(70_000), "\n\t\"\\".to_string()]);
+    // lengths on both sides of 2^8, 2^10, 2^16 bytes, 2^16 words (the longest string one instruction can carry is
+    // 4 * 65534 - 1 = 262 135 bytes; an operand is not an instruction and carries what it is given), 2^20, 2^24
+    for n in [255usize, 256, 257, 1023, 1024, 65_535, 65_536, 65_537, 262_131, 262_135, 262_136, 262_139, 262_140, 262_143, 262_144, 262_145, 1 << 20, (1 << 24) + 1] {
+        strs.push("y".repeat(n));
+        strs.push("é".repeat(n / 2 + 1));
+    }
     for s in strs.iter().map(|s| s.as_str()) {
         evals += 1;
         let o = dr::Operand::from(s.to_string());
